@@ -141,7 +141,8 @@ func run(r *vt.Run, t vt.TB, s spec) {
 		items = append(items, "*")
 		expanded = append(expanded, allCols...)
 	}
-	tableSQL := quote(name)
+	// (always quoted: a table may be called rowid, which is a word of the driver's own grammar)
+	tableSQL := `"` + strings.ReplaceAll(name, `"`, `""`) + `"`
 	query := "SELECT " + strings.Join(sel, ", ") + " FROM " + tableSQL
 	nativeTable := name
 	switch s.Bad {
